@@ -51,6 +51,9 @@ def get_path(v, path):
             v = v[2][i]
         elif v[0] == "cf" and i == 0:
             v = v[2]
+        elif v[0] == "symenum":
+            # an enum whose variant is symbolic: ("symenum", discriminant term, payload fields shared by the variants)
+            v = v[2][i]
         else:
             raise Unsupported("projection .%s of %s" % (i, v[0]))
     return v
@@ -389,6 +392,8 @@ class Machine:
                 return o[1] if val == 0 else z3.Not(o[1])
             if isinstance(o, tuple) and o[0] == "enum":
                 return z3.BoolVal(o[1] == val)
+            if isinstance(o, tuple) and o[0] == "symenum":
+                return o[1] == z3.BitVecVal(val, o[1].size())
             raise Unsupported("discriminant of %r" % (o,))
         if z3.is_bool(v):
             return v if val != 0 else z3.Not(v)
